@@ -15,7 +15,15 @@ type Property struct {
 
 var registry = map[string]*Property{}
 
-func register(p *Property) { registry[p.ID] = p }
+func register(p *Property) {
+	run := p.Run
+	p.Run = func(r *core.Run) {
+		run(r)
+		errorsReachTheCaller(r)
+	}
+	p.Explain += " (errors-reach-the-caller) error discipline on the code reached from this property's entry points: the error returned by a call is handed on (returned, wrapped, stored, sent, inspected), never dropped or merely compared and logged, except at the enumerated places where a failure needs no reporting."
+	registry[p.ID] = p
+}
 
 // Lookup returns the check registered for a property id.
 func Lookup(id string) *Property { return registry[id] }
